@@ -174,6 +174,12 @@ func (a *AvahiProvider) Announce(serviceName string, port int, txt []string) err
 		btxt = append(btxt, []byte(t))
 	}
 
+	// a new announcement replaces the current one
+	if a.avEntryGroup != nil {
+		a.avServer.EntryGroupFree(a.avEntryGroup)
+		a.avEntryGroup = nil
+	}
+
 	entryGroup, err := a.avServer.EntryGroupNew()
 	if err != nil {
 		return err
@@ -222,8 +228,11 @@ func (a *AvahiProvider) avahiCallback(event avahi.Event) {
 
 	logging.Log().Debug("mdns: avahi - disconnected")
 
-	// the server was shutdown, set it to nil so we don't try to call free functions
-	// on shutting down a currently running resolve
+	// the server was shutdown, its entry group and service browser are gone with it
+	// set them to nil so we don't try to call free functions on them
+	a.avEntryGroup = nil
+	a.avBrowser = nil
+
 	cb := a.resolveCB
 	var serviceData *mdnsServiceData
 	if a.mdnsServiceData != nil {
